@@ -8,13 +8,18 @@
      trunc   x > MaxRepr and the dropped digits are not all zero      (ToExact, RoundTrip)
      panic   x > MaxRepr and decimals - dropped > MaxScale             (NoPanic)
      amount  decimals > MaxScale and digits are dropped                (ToExact)
-     round   a Decimal with more fractional digits than the target     (FromExact)          *)
+     above   an unsigned x > MaxI: the way back goes through the signed type  (RoundTrip)
+     round   a Decimal with more fractional digits than the target     (FromExact)
+     fmt     the error path formats a Decimal whose scale rescale() pushed above MaxScale (NoPanic) *)
 EXTENDS DecimalConvProps
-CONSTANTS MaxD
+CONSTANTS MaxD, Full
 VARIABLES kind, x, d, m, s
 vars == <<kind, x, d, m, s>>
 
-Init == \/ /\ kind \in {"ufixed", "sfixed"} /\ x \in 0..MaxU /\ d \in 0..MaxD /\ m = 0 /\ s = 0
+(* quick tier: the neighbourhoods of every boundary instead of the whole unsigned range *)
+XS == IF Full THEN 0..MaxU
+      ELSE (0..(MaxRepr + 80)) \cup ((MaxI - 60)..(MaxI + 120)) \cup (9950..10060) \cup ((MaxU - 60)..MaxU)
+Init == \/ /\ kind \in {"ufixed", "sfixed"} /\ x \in XS /\ d \in 0..MaxD /\ m = 0 /\ s = 0
         \/ /\ kind \in {"uamount", "samount"} /\ x \in 0..AmtMax /\ d \in 0..MaxD /\ m = 0 /\ s = 0
         \/ /\ kind = "from" /\ x = 0 /\ d \in 0..MaxD /\ m \in 0..MaxRepr /\ s \in 0..MaxScale
 Next == UNCHANGED vars
@@ -30,19 +35,20 @@ ToEv(op, neg) ==
               [] OTHER -> DecToSigned(r.dec, d) IN
   [dir |-> "to", op |-> op, x |-> Str(x), neg |-> neg, d |-> d, st |-> r.st,
    m |-> Str(r.dec.m), s |-> r.dec.s, dneg |-> r.dec.neg,
-   bst |-> IF r.st # "some" THEN "skip" ELSE IF b.ok THEN "ok" ELSE "err",
+   bst |-> IF r.st # "some" THEN "skip" ELSE IF b.ok THEN "ok" ELSE IF b.panic THEN "panic" ELSE "err",
    back |-> Str(Abs(b.v)), bneg |-> b.v < 0]
 FromEv(op, neg) ==
   LET dec == Dec(neg, m, s)
       b == CASE op = "from_value" -> DecToValue(dec, d) [] op = "from_amount" -> DecToAmount(dec, d)
              [] OTHER -> DecToSigned(dec, d) IN
   [dir |-> "from", op |-> op, x |-> "0", neg |-> FALSE, d |-> d, st |-> "some",
-   m |-> Str(m), s |-> s, dneg |-> neg, bst |-> IF b.ok THEN "ok" ELSE "err",
+   m |-> Str(m), s |-> s, dneg |-> neg, bst |-> IF b.ok THEN "ok" ELSE IF b.panic THEN "panic" ELSE "err",
    back |-> Str(Abs(b.v)), bneg |-> b.v < 0]
 
 Diff     == ILog10(x) - TargetScale
 Trunc    == x > MaxRepr /\ x % Pow10(Diff) # 0
 PanicCls == x > MaxRepr /\ d >= Diff /\ d - Diff > MaxScale
+AboveI   == kind = "ufixed" /\ x > MaxI
 AmtCls   == d > MaxScale /\ (IF d - MaxScale > AmtScale THEN x # 0 ELSE x % Pow10(d - MaxScale) # 0)
 
 Signs == IF kind \in {"sfixed", "samount"} /\ x <= MaxI THEN {FALSE, TRUE} ELSE {FALSE}
@@ -55,12 +61,13 @@ LFixed ==
       (* the listed property holds on the design exactly outside the two classes *)
       /\ MonNoPanic(e) <=> ~PanicCls
       /\ MonToExact(e) <=> ~(Trunc /\ e.st = "some")
-      /\ (~Trunc /\ ~PanicCls) => MonRoundTrip(e)
+      /\ (~Trunc /\ ~PanicCls /\ ~AboveI) => MonRoundTrip(e)
+      /\ (AboveI /\ e.st = "some" /\ d <= MaxScale) => ~MonRoundTrip(e)
       /\ (Trunc /\ e.st = "some" /\ d <= MaxScale /\ e.bst = "ok") => ~MonRoundTrip(e)
       (* None exactly when the value has no Decimal of the requested decimals at all *)
       /\ e.st = "none" <=> (IF x > MaxRepr THEN d < Diff ELSE d > MaxScale)
       (* what the truncation does: the digits below 10^Diff are dropped *)
-      /\ (x > MaxRepr /\ e.st = "some" /\ e.bst = "ok") => e.back = Str(x - x % Pow10(Diff))
+      /\ (x > MaxRepr /\ e.st = "some" /\ e.bst = "ok") => e.back = Str(x - (x % Pow10(Diff)))
 LAmount ==
   kind \in {"uamount", "samount"} =>
     \A neg \in (IF kind = "samount" THEN {FALSE, TRUE} ELSE {FALSE}) :
@@ -74,10 +81,14 @@ LFrom ==
     \A op \in {"from_amount", "from_value", "from_signed"}, neg \in {FALSE, TRUE} :
       LET e == FromEv(op, neg /\ m # 0)
           excess == s > d /\ m % Pow10(s - d) # 0 IN          \* more fractional digits than the target
-      /\ MonNoPanic(e)
+      (* panics exactly when the error path has to print a Decimal that rescale() left with a scale
+         above MaxScale + 2 (sign included) *)
+      /\ MonNoPanic(e) <=> ~(LET r == Rescale(Dec(neg /\ m # 0, m, s), d) IN
+                               r.s < d /\ ~MulPow10(r.m, d - r.s).ok /\ FormatPanics(r))
       /\ MonFromExact(e) <=> ~(excess /\ e.bst = "ok")
-      /\ (~excess /\ e.bst = "err") =>                          \* errors only for values out of range
+      /\ (~excess /\ e.bst # "ok") =>                          \* errors only for values out of range
             \/ (neg /\ m # 0 /\ op # "from_signed")
-            \/ d - Min(s, d) > 9 \/ m * Pow10(d - Min(s, d)) > (IF op = "from_amount" THEN AmtMax ELSE MaxI)
+            \/ (m # 0 /\ d - Min(s, d) > 3)
+            \/ (m # 0 /\ m * Pow10(d - Min(s, d)) > (IF op = "from_amount" THEN AmtMax ELSE MaxI))
             \/ (m = 0 /\ d - Min(d, MaxScale) > PowMax)
 =============================================================================
